@@ -56,7 +56,7 @@ Avail(w) == w.cur = {} /\ w.mq = <<>>               \* WorkerProperties::is_avai
 Working(w) == ~Avail(w)
 
 InitMon == [dev |-> {}, exclBad |-> FALSE, fifoBad |-> FALSE, lastStart |-> [k \in Keys |-> 0], hook |-> 0, hookBad |-> FALSE,
-            lost2 |-> FALSE, panic |-> FALSE, qbBad |-> FALSE, idleBad |-> FALSE, rrSeen |-> {}, rrN |-> 0, rrBad |-> FALSE, ans |-> <<>>]
+            lost2 |-> FALSE, panic |-> FALSE, qbBad |-> FALSE, qbBad2 |-> FALSE, idleBad |-> FALSE, rrSeen |-> {}, rrN |-> 0, rrBad |-> FALSE, ans |-> <<>>]
 \* the handler record: factory state + scratch fields (fx, dev, born) that are empty between steps
 InitF(n, lim, mode, lb, lbon, fq) ==
   [q |-> <<>>, pool |-> [w \in 0 .. (n - 1) |-> NewWorker(w + 1, IF fq THEN -1 ELSE lim, IF fq THEN "none" ELSE mode)],
@@ -398,9 +398,23 @@ StepMon(M, S0, S, m) ==
             /\ IF FQ THEN NDisc(S.q) > lim /\ NDisc(S.q) > NDisc(S0.q)
                      ELSE \E w \in DOMAIN S.pool : Len(S.pool[w].mq) > S.pool[w].lim /\ S.pool[w].lim >= 0
                                                     /\ (w \notin DOMAIN S0.pool \/ Len(S.pool[w].mq) > Len(S0.pool[w].mq))
+      \* the same, looking only at slots whose worker actor accepts messages
+      qb2 == /\ m = "dispatch" /\ lim >= 0
+             /\ IF FQ THEN qb
+                      ELSE \E w \in DOMAIN S.pool : Len(S.pool[w].mq) > S.pool[w].lim /\ S.pool[w].lim >= 0 /\ IncAlive(S, S.pool[w].inc)
+                                                     /\ (w \notin DOMAIN S0.pool \/ Len(S.pool[w].mq) > Len(S0.pool[w].mq))
+      \* Dev_ClosedWorkerQueueOverLimit: jobs handed to a slot whose worker is closed (stopping or dead, not yet replaced) are
+      \* parked at the head of its queue by dispatch_job, and enqueue_job returns before it looks at the limit
+      closedOver == qb /\ ~qb2
+      \* Dev_ParkedJobNotSticky: a job parked on a closed worker's slot has no in-flight entry, so sticky routing does not see
+      \* its key: another slot is now processing that key while the parked job waits for the replacement
+      parked == /\ cfg.routing = "sticky"
+                /\ \E w1, w2 \in DOMAIN S.pool : w1 # w2 /\ \E i \in 1 .. Len(S.pool[w1].mq) :
+                      KeyOf(S.pool[w1].mq[i]) \notin S.pool[w1].cur /\ KeyOf(S.pool[w1].mq[i]) \in S.pool[w2].cur
       idle == /\ cfg.routing = "queuer" /\ ~S.lbon /\ S.q # <<>> /\ S.drain # 2
               /\ \E w \in DOMAIN S.pool : w < S.ps /\ ~S.pool[w].dr /\ Avail(S.pool[w]) /\ IncAlive(S, S.pool[w].inc)
-  IN [M EXCEPT !.dev = @ \cup S.dev, !.panic = @ \/ S.bad, !.qbBad = @ \/ qb, !.idleBad = @ \/ idle]
+  IN [M EXCEPT !.dev = @ \cup S.dev \cup (IF closedOver THEN {"ClosedWorkerQueueOverLimit"} ELSE {}) \cup (IF parked THEN {"ParkedJobNotSticky"} ELSE {}),
+               !.panic = @ \/ S.bad, !.qbBad = @ \/ qb, !.qbBad2 = @ \/ qb2, !.idleBad = @ \/ idle]
 
 \* round-robin monitor: over pool_size consecutive choices in a stable pool every worker is chosen once
 RECURSIVE RrMon(_, _, _)
@@ -483,25 +497,36 @@ WorkerStart(i) ==
                               !.fifoBad = @ \/ (cfg.routing = "keyp" /\ mon.lastStart[k] > j),
                               !.lastStart[k] = IF j > @ THEN j ELSE @]
   /\ UNCHANGED <<cfg, f, fmq, fsq, now>>
-\* the job ends: "ok" reports completion; "panic"/"err" end the actor; "killmid" = killed while busy
+\* the job ends: "ok" reports completion; "stopafter" reports completion and then asks its own actor to stop;
+\* "panic"/"err" end the actor; "killmid" = killed while busy
 WorkerEnd(i, how) ==
   /\ act[i].st = "alive" /\ act[i].run # 0 /\ ~act[i].dying
   /\ LET j == act[i].run IN
-     IF how = "ok"
-       THEN /\ act' = [act EXCEPT ![i].run = 0]
+     IF how \in {"ok", "stopafter"}
+       THEN /\ act' = [act EXCEPT ![i].run = 0, ![i].stop = @ \/ how = "stopafter"]
             /\ jb' = [jb EXCEPT ![j].h = IF @ < 2 THEN @ + 1 ELSE @]
             /\ fmq' = IF FactoryUp THEN Append(fmq, Msg("finished", act[i].wid, KeyOf(j), "", i)) ELSE fmq
        ELSE /\ act' = [act EXCEPT ![i].dying = TRUE, ![i].kill = @ \/ how = "killmid"]
             /\ UNCHANGED <<jb, fmq>>
   /\ UNCHANGED <<cfg, f, fsq, now, mon>>
 WorkerKill(i) ==
-  /\ act[i].st = "alive" /\ act' = [act EXCEPT ![i].kill = TRUE]
+  /\ act[i].st \in {"alive", "closing"} /\ act' = [act EXCEPT ![i].kill = TRUE]
+  /\ UNCHANGED <<cfg, f, fmq, fsq, jb, now, mon>>
+\* stop() on the worker's own actor (the factory's stops are the "wstop" effects of its handlers)
+WorkerStop(i) ==
+  /\ act[i].st = "alive" /\ act' = [act EXCEPT ![i].stop = TRUE]
+  /\ UNCHANGED <<cfg, f, fmq, fsq, jb, now, mon>>
+\* an idle worker sees the stop request: the loop ends, the status becomes Stopping and post_stop runs.  From here
+\* on casts to it fail (IncAlive) and it starts nothing any more, but its supervisor is only told when post_stop is over
+WorkerClosing(i) ==
+  /\ act[i].st = "alive" /\ act[i].stop /\ act[i].run = 0 /\ ~act[i].kill /\ ~act[i].dying
+  /\ act' = [act EXCEPT ![i].st = "closing"]
   /\ UNCHANGED <<cfg, f, fmq, fsq, jb, now, mon>>
 \* the actor is gone: whatever it held is lost with it; its supervisor is told
 \* (a factory that ends kills whatever children it still has, e.g. a retired worker that has not stopped yet)
-MayDie(i) == act[i].st = "alive" /\ (act[i].dying \/ act[i].kill \/ (act[i].stop /\ act[i].run = 0) \/ f.up = "dead")
+MayDie(i) == act[i].st = "closing" \/ (act[i].st = "alive" /\ (act[i].dying \/ act[i].kill \/ f.up = "dead"))
 WorkerDead(i) ==
-  /\ act[i].st = "alive"
+  /\ act[i].st \in {"alive", "closing"}
   /\ LET held == act[i].mb \o (IF act[i].run # 0 THEN <<act[i].run>> ELSE <<>>)
          hs == {held[x] : x \in 1 .. Len(held)}
      IN /\ jb' = [j \in JobIds |-> IF j \in hs THEN [jb[j] EXCEPT !.lost = IF @ < 2 THEN @ + 1 ELSE @] ELSE jb[j]]
@@ -517,7 +542,7 @@ Tick(t) == /\ t >= now /\ now' = t /\ UNCHANGED <<cfg, f, fmq, fsq, act, jb, mon
 InFmq(j) == \E i \in 1 .. Len(fmq) : fmq[i].m = "dispatch" /\ fmq[i].a = j
 InQ(j) == \E i \in 1 .. Len(f.q) : f.q[i] = j
 InWq(j) == \E w \in DOMAIN f.pool : \E i \in 1 .. Len(f.pool[w].mq) : f.pool[w].mq[i] = j
-InAct(j) == \E a \in Incs : act[a].st = "alive" /\ (act[a].run = j \/ \E i \in 1 .. Len(act[a].mb) : act[a].mb[i] = j)
+InAct(j) == \E a \in Incs : act[a].st \in {"alive", "closing"} /\ (act[a].run = j \/ \E i \in 1 .. Len(act[a].mb) : act[a].mb[i] = j)
 Places(j) == (IF InFmq(j) THEN 1 ELSE 0) + (IF InQ(j) THEN 1 ELSE 0) + (IF InWq(j) THEN 1 ELSE 0) + (IF InAct(j) THEN 1 ELSE 0)
 Fates(j) == jb[j].h + jb[j].d + jb[j].lost + (IF jb[j].undeliv THEN 1 ELSE 0)
 Stale == "StaleCompletion" \in mon.dev
@@ -542,9 +567,10 @@ Reported(w, a) == Cardinality({i \in 1 .. Len(fmq) : fmq[i].m = "finished" /\ fm
 ViewExact0 == \A w \in DOMAIN f.pool : LET a == f.pool[w].inc IN
                act[a].st = "alive" => Cardinality(f.pool[w].cur) = Len(act[a].mb) + (IF act[a].run # 0 THEN 1 ELSE 0) + Reported(w, a)
 \* C15
-QueueBound == ~mon.qbBad
+QueueBound0 == ~mon.qbBad
 HookOrder == ~mon.hookBad
-Quiet == fmq = <<>> /\ fsq = <<>> /\ ~f.stopreq /\ \A a \in Incs : act[a].st = "alive" => (act[a].run = 0 /\ act[a].mb = <<>> /\ ~MayDie(a))
+Quiet == /\ fmq = <<>> /\ fsq = <<>> /\ ~f.stopreq /\ \A a \in Incs : act[a].st # "closing"
+         /\ \A a \in Incs : act[a].st = "alive" => (act[a].run = 0 /\ act[a].mb = <<>> /\ ~act[a].stop /\ ~MayDie(a))
 LiveIncs == {a \in Incs : act[a].st = "alive"}
 \* at quiescence the live workers are exactly slots 0..ps-1, none draining
 PoolConverges0 == (Quiet /\ FactoryUp) =>
@@ -556,7 +582,8 @@ DrainRefuses == \A j \in JobIds : (jb[j].sub /\ jb[j].why = "shutdown") => (jb[j
 
 \* the same, read with the recorded deviations (DESIGN §6 items 2 and 3)
 LostOnePerDeath == LostOnePerDeath0 \/ Stale
-KeyExclusive == KeyExclusive0 \/ Stale
+KeyExclusive == KeyExclusive0 \/ Stale \/ "ParkedJobNotSticky" \in mon.dev
+QueueBound == ~mon.qbBad2 /\ (mon.qbBad => "ClosedWorkerQueueOverLimit" \in mon.dev)
 KeyFifo == KeyFifo0 \/ Stale
 OneAtATime == OneAtATime0 \/ Stale
 ViewExact == ViewExact0 \/ Stale
@@ -564,7 +591,7 @@ QueuerNoIdle == QueuerNoIdle0 \/ Stale
 PoolConverges == PoolConverges0 \/ DSR \/ Stale
 DrainComplete == DrainComplete0 \/ Stale
 \* which property-level readings are broken in this state (each is excused by a deviation above)
-Broken == (IF LostOnePerDeath0 THEN {} ELSE {"C13:LostOnePerDeath"}) \cup (IF ViewExact0 THEN {} ELSE {"C13:ViewExact"})
+Broken == (IF QueueBound0 THEN {} ELSE {"C15:QueueBound"}) \cup (IF LostOnePerDeath0 THEN {} ELSE {"C13:LostOnePerDeath"}) \cup (IF ViewExact0 THEN {} ELSE {"C13:ViewExact"})
           \cup (IF KeyExclusive0 THEN {} ELSE {"C14:KeyExclusive"}) \cup (IF KeyFifo0 THEN {} ELSE {"C14:KeyFifo"})
           \cup (IF OneAtATime0 THEN {} ELSE {"C14:OneAtATime"}) \cup (IF QueuerNoIdle0 THEN {} ELSE {"C14:QueuerNoIdle"})
           \cup (IF PoolConverges0 THEN {} ELSE {"C15:PoolConverges"}) \cup (IF DrainComplete0 THEN {} ELSE {"C15:DrainComplete"})
@@ -573,4 +600,7 @@ NeverStale == ~Stale
 NeverDrainingSlotReplaced == "DrainingSlotReplaced" \notin mon.dev
 NeverExclBad == ~mon.exclBad
 NeverDrained == f.up # "dead"
+NeverClosedCastFails == "ClosedWorkerQueueOverLimit" \notin mon.dev
+NeverParked == "ParkedJobNotSticky" \notin mon.dev
+NeverClosing == \A a \in Incs : act[a].st # "closing"
 =============================================================================
